@@ -23,7 +23,8 @@ RULE = ("job = seed -> (client settings, server settings) drawn independently "
         "digest(settings pair, flavour); non-trivial = both settings differ "
         "from the defaults in >=1 dimension and the handshake reached a "
         "verdict (completed, or failed with an alert)"
-        ' PSK flavour draws psk_modes on both sides; the mode actually used (key_share in ServerHello or not) must lie inside both policies.')
+        ' PSK flavour draws psk_modes on both sides; the mode actually used (key_share in ServerHello or not) must lie inside both policies.'
+        ' SNI spellings include the FQDN form with a trailing dot and mixed case.')
 LEVEL_TEXT = ("Seeded exploration of settings pairs; disjoint and partially "
               "overlapping policies are frequent by construction.  The "
               "containment oracle parses the negotiated suite from its IANA "
@@ -103,7 +104,9 @@ def draw_case(ch):
         sc["npn_c"] = ["http/1.1", "h2"]
         sc["npn_s"] = ["h2", "http/1.1"]
     elif o == 4:
-        sc["sni"] = "host.example"
+        # (FQDN spelling with the trailing dot is a valid host name too)
+        sc["sni"] = ["host.example", "host.example.", "a.b-c.example",
+                     "HOST.Example"][ch.draw(4, "opt.sni")]
     elif o == 5:
         sc["alpn_c"] = ["h2", "http/1.1"]      # server without ALPN
     return sc
